@@ -60,6 +60,8 @@ def make_product(root, k=2, level="1.5", seed=0, fs=None, images=None, **leader_
 
     fs = fs or fsspec.filesystem("memory")
     images = images if images is not None else image_specs(k, level, seed)
+    # every other product gets a summary whose sections are interleaved and whose file lines are out of index order (legal: C14)
+    leader_kw.setdefault("summary_order", "interleaved" if (seed + len(images)) % 2 else None)
     names = synth.product(fs, root, images, level=level, **leader_kw)
     return fs, images, names
 
